@@ -56,13 +56,23 @@ fn q_h13hdr__write_read_all_sizes() {
 /// mdat size patch of a zero-track writer (the mdat logic does not look at tracks): start offset
 /// p0 and payload gap g symbolic.
 #[kani::proof]
-#[kani::unwind(82)]
+#[kani::unwind(26)]
 fn q_h13mdat__size_patch_any_start_any_gap() {
     let p0: u64 = kani::any();
     let g: u64 = kani::any();
     kani::assume(p0 < POS_LIMIT && g < POS_LIMIT);
     let cfg = Mp4Config { major_brand: FourCC::from(*b"isom"), minor_version: 0, compatible_brands: Vec::new(), timescale: 1000 };
-    let mut w = match Mp4Writer::write_start(Sparse::new(p0), &cfg) {
+    // the layout is known in advance: ftyp is 16 bytes, mdat header + wide placeholder 16 more
+    let mdat_at = p0 + 16;
+    let mdat_end = p0 + 32 + g;
+    let mut sp = Sparse::new(p0);
+    let h_size = sp.watch(mdat_at, 4);
+    let h_type = sp.watch(mdat_at + 4, 4);
+    let h_wide_size = sp.watch(mdat_at + 8, 4);
+    let h_wide_type = sp.watch(mdat_at + 12, 4);
+    let h_large = sp.watch(mdat_at + 8, 8);
+    let h_moov_type = sp.watch(mdat_end + 4, 4);
+    let mut w = match Mp4Writer::write_start(sp, &cfg) {
         Ok(w) => w,
         Err(e) => {
             std::mem::forget(e);
@@ -72,13 +82,12 @@ fn q_h13mdat__size_patch_any_start_any_gap() {
     };
     std::mem::forget(cfg);
     let (mdat_pos, _, _, _) = w.verif_state();
-    assert!(mdat_pos == p0 + 16, "C13 mdat follows the 16-byte ftyp");
+    assert!(mdat_pos == mdat_at, "C13 mdat follows the 16-byte ftyp");
     // payload stand-in: seek over g bytes
     {
         let s = w.verif_writer_mut();
-        let at = s.pos;
-        assert!(at == p0 + 32, "C13 ftyp + mdat header + wide placeholder");
-        let _ = s.seek(SeekFrom::Start(at + g));
+        assert!(s.pos == p0 + 32, "C13 ftyp + mdat header + wide placeholder");
+        let _ = s.seek(SeekFrom::Start(mdat_end));
     }
     match w.write_end() {
         Ok(()) => {}
@@ -89,18 +98,18 @@ fn q_h13mdat__size_patch_any_start_any_gap() {
         }
     }
     let s = w.verif_writer();
-    let mdat_end = p0 + 32 + g;
     let m = mdat_end - mdat_pos;
-    assert!(s.get32(mdat_pos + 4) == Some(cc(b"mdat")), "C13 the mdat type is intact");
+    assert!(s.seen(h_type) == Some(cc(b"mdat") as u64), "C13 the mdat type is intact");
     if m <= u32::MAX as u64 {
-        assert!(s.get32(mdat_pos) == Some(m as u32), "C13 a media-data size that fits is stored in the 32-bit field");
-        assert!(s.get32(mdat_pos + 8) == Some(8) && s.get32(mdat_pos + 12) == Some(cc(b"wide")), "C13 the placeholder stays a valid 8-byte box");
+        assert!(s.seen(h_size) == Some(m), "C13 a media-data size that fits is stored in the 32-bit field");
+        assert!(s.seen(h_large).is_none(), "C13 no extended size is written when the 32-bit field suffices");
+        assert!(s.seen(h_wide_size) == Some(8) && s.seen(h_wide_type) == Some(cc(b"wide") as u64), "C13 the placeholder stays a valid 8-byte box");
     } else {
-        assert!(s.get32(mdat_pos) == Some(1), "C13 a media-data size beyond 32 bits switches to the extended form");
-        assert!(s.get64(mdat_pos + 8) == Some(m), "C13 the extended size field holds the full size");
+        assert!(s.seen(h_size) == Some(1), "C13 a media-data size beyond 32 bits switches to the extended form");
+        assert!(s.seen(h_large) == Some(m), "C13 the extended size field holds the full size");
     }
-    // the box after mdat, found the way a reader finds it, is moov
-    assert!(s.get32(mdat_pos + m + 4) == Some(cc(b"moov")), "C13 the media-data box ends where moov starts");
+    // the box after mdat, found the way a reader finds it (mdat start + size), is moov
+    assert!(s.seen(h_moov_type) == Some(cc(b"moov") as u64), "C13 the media-data box ends where moov starts");
     kani::cover!(m > u32::MAX as u64, "extended form");
     kani::cover!(m == u32::MAX as u64, "exactly u32::MAX");
     kani::cover!(m == 16, "empty media data");
@@ -110,7 +119,7 @@ fn q_h13mdat__size_patch_any_start_any_gap() {
 /// The chunk offset recorded is the stream position at flush for every start position, and
 /// write_end keeps 64-bit offsets exactly when one does not fit 32 bits.
 #[kani::proof]
-#[kani::unwind(82)]
+#[kani::unwind(5)]
 fn q_h13co64__offset_any_start_and_write_end() {
     let p0: u64 = kani::any();
     kani::assume(p0 < POS_LIMIT);
@@ -124,6 +133,7 @@ fn q_h13co64__offset_any_start_and_write_end() {
     };
     std::mem::forget(cfg);
     let mut s = Sparse::new(p0);
+    let h_payload = s.watch(p0, 1);
     let b: [u8; 1] = kani::any();
     let smp = Mp4Sample { start_time: 0, duration: 1000, rendering_offset: 0, is_sync: true, bytes: Bytes::copy_from_slice(&b) };
     match tw.write_sample(&mut s, &smp, 1000) {
@@ -139,7 +149,7 @@ fn q_h13co64__offset_any_start_and_write_end() {
         assert!(co.map(|c| c.entries.len()) == Some(1), "C13 one chunk was flushed");
         assert!(co.map(|c| c.entries[0]) == Some(p0), "C13 the chunk offset recorded is the stream position at flush");
     }
-    assert!(s.get(p0) == Some(b[0]), "C13 the payload is at the recorded offset");
+    assert!(s.seen(h_payload) == Some(b[0] as u64), "C13 the payload is at the recorded offset");
     match tw.write_end(&mut s) {
         Ok(trak) => {
             let stbl = &trak.mdia.minf.stbl;
@@ -206,12 +216,12 @@ fn h13_dur<const K: usize>() {
 }
 
 #[kani::proof]
-#[kani::unwind(9)]
+#[kani::unwind(4)]
 fn q_h13dur__k1() {
     h13_dur::<1>()
 }
 #[kani::proof]
-#[kani::unwind(9)]
-fn q_h13dur__k2() {
+#[kani::unwind(5)]
+fn t_h13dur__k2() {
     h13_dur::<2>()
 }
